@@ -1288,6 +1288,21 @@ class S2Arr:
                 g = z3.simplify(z3.ForAll([j], z3.Implies(z3.And(j >= 0, j < rs.nz()), z3.And(rs.get(j).z >= -n, rs.get(j).z < n))))
                 if not z3.is_true(g):
                     eng.prove(eng.site("gather-in-bounds"), g, "safety")
+            m = _conc(rs.n)
+            if m is not None and m <= 64:
+                # an index array of concrete length: position by position, and the wrap-around is resolved where the path condition
+                # decides the sign (the cells then are the very terms a[idx[j]] a specification writes)
+                pz = []
+                for x in _cells(rs, m):
+                    if z3.is_int_value(x.z):
+                        pz.append(x.z if x.z.as_long() >= 0 else z3.simplify(x.z + n))
+                    elif not eng.feasible(x.z < 0):
+                        pz.append(x.z)
+                    elif not eng.feasible(x.z >= 0):
+                        pz.append(z3.simplify(x.z + n))
+                    else:
+                        pz.append(z3.If(x.z < 0, x.z + n, x.z))
+                return ("rows", [sarr_of_items([Sym(z3.Select(c, p), self.kind) for p in pz], self.kind).arr for c in cols], m)
             pos = lambda i: z3.If(rs.get(i).z < 0, rs.get(i).z + n, rs.get(i).z)
             return ("rows", [lam(lambda i, _c=c: z3.Select(_c, pos(i)), self.kind) for c in cols], rs.n)
         if isinstance(rs, (NArr, PList, list, tuple)):
